@@ -256,7 +256,11 @@ def auxiliary_data(serdes, state):
     ### for i in range(1, state["next_parse_offset"]-12):
     ###     read_uint_lit(state, 1)
     ## Begin not in spec
-    serdes.bytes("bytes", state["next_parse_offset"] - PARSE_INFO_HEADER_BYTES)
+    # NB: For robustness against bad bitstreams, next_parse_offset values
+    # pointing inside the parse_info header are treated as an empty payload
+    serdes.bytes(
+        "bytes", max(0, state["next_parse_offset"] - PARSE_INFO_HEADER_BYTES)
+    )
     ## End not in spec
 
 
@@ -267,7 +271,11 @@ def padding(serdes, state):
     ### for i in range(1, state["next_parse_offset"]-12):
     ###     read_uint_lit(state, 1)
     ## Begin not in spec
-    serdes.bytes("bytes", state["next_parse_offset"] - PARSE_INFO_HEADER_BYTES)
+    # NB: For robustness against bad bitstreams, next_parse_offset values
+    # pointing inside the parse_info header are treated as an empty payload
+    serdes.bytes(
+        "bytes", max(0, state["next_parse_offset"] - PARSE_INFO_HEADER_BYTES)
+    )
     ## End not in spec
 
 
